@@ -247,6 +247,34 @@ def spellings(rep: Report, prog: Program, tables: Tables) -> None:
         rep.check("R13.5", f"callback:{cb}", op in txt and arg in txt, f"the `{cb}` callback no longer combines its children with `{op}`", fi.where())
 
 
+def token_resolution(rep: Report, prog: Program, resolver: Resolver) -> None:
+    """R13.8: the unit a SYMBOL token stands for is Unit.resolve_symbol(<the token text>) and nothing else.
+    R13.2 decides every prefix x symbol spelling against the resolution order of Unit.resolve_symbol; a
+    second resolution step in the parser layer (splitting the token, consulting the registries itself)
+    would make the parser read some spellings differently from what R13.2 decided."""
+    fns = [(q, fi) for q, fi in sorted(prog.functions.items()) if fi.module == "parsing"]
+    n = 0
+    for q, fi in fns:
+        for loc, node in reads_in(prog, resolver, q):
+            if loc.split(".")[-1] in ("_by_symbol", "_by_name"):
+                n += 1
+                rep.fail("R13.8", f"{q}:reads {loc}", f"{q} consults {loc} itself: symbol resolution is duplicated in the parser layer, outside "
+                         "Unit.resolve_symbol (the order R13.2 was decided for)", fi.where(node))
+        assigned = {x.id for st in ast.walk(fi.node) if isinstance(st, (ast.Assign, ast.AugAssign, ast.For, ast.comprehension))
+                    for t in ([st.target] if not isinstance(st, ast.Assign) else st.targets) for x in ast.walk(t) if isinstance(x, ast.Name)}
+        for c in ast.walk(fi.node):
+            if isinstance(c, ast.Call) and isinstance(c.func, ast.Attribute) and c.func.attr == "resolve_symbol" and "Unit" in ast.unparse(c.func.value):
+                n += 1
+                a0 = c.args[0] if c.args else None
+                ok = isinstance(a0, ast.Name) and a0.id in fi.params() and a0.id not in assigned
+                rep.check("R13.8", f"{q}:{ast.unparse(c)[:40]}", ok,
+                          f"`{ast.unparse(c)[:50]}` resolves something other than the token text it was given (a piece, a rewritten string): "
+                          "the parser reads that spelling differently from str()'s writer and from the symbol table analysis",
+                          fi.where(c))
+    if n == 0:
+        raise AnalysisError("parsing.py: no Unit.resolve_symbol call found (R13.8 anchor moved)")
+
+
 def term_prefix_guard(rep: Report, prog: Program) -> None:
     """R13.7: a prefix the formatter attaches to a rendered term is either a factor's own prefix or
     the result of Prefix.root(..) - the only operation that rejects a prefix whose exponent is not
@@ -331,6 +359,8 @@ def run(rep: Report) -> None:
              "leading only), DIGITS inverts it, the join separator is a _MULTIPLY alternative", floor=14)
     rep.rule("R13.5", "spellings: alternatives of one rule differ only in filtered tokens, or their callbacks produce the same "
              "type; unit divides, unit_sequence multiplies, term raises", floor=5)
+    rep.rule("R03.7", "Quantity.__init__ with a unit text keeps magnitude and unit as given (shared with C03)", floor=2)
+    rep.rule("R13.8", "the parser layer resolves a SYMBOL token only as Unit.resolve_symbol(<token text>): no second resolution step", floor=1)
     rep.rule("R13.7", "a prefix attached to a rendered term is a factor's own prefix or has passed Prefix.root (integrality guard)", floor=1)
     rep.rule("R13.6", "no memoised function on the resolution path reads the registries (a stale answer would survive a later registration)", floor=1)
     thorough = rep.tier == "thorough"
@@ -344,6 +374,9 @@ def run(rep: Report) -> None:
     tables_rule(rep, prog, resolver, tables)
     spellings(rep, prog, tables)
     term_prefix_guard(rep, prog)
+    token_resolution(rep, prog, resolver)
+    from ..quantity_rules import check_quantity_ctor
+    check_quantity_ctor(rep, prog, "R03.7")
     # R13.6
     from .c08 import NAMING, memo_functions
     n6 = 0
